@@ -18,7 +18,7 @@ Theorem C20_slots_logtime : forall (sel : amsg -> bool) cks,
      (length (a_slots s) <= Nat.max 1 (max_overlap cks))%nat) /\
   (forall fuel n out st, a_read sel LogTimeOrder fuel n cks = Some (out, st) ->
      (fst st <= Nat.max 1 (max_overlap cks))%nat /\ (snd st <= Nat.max 1 (max_overlap cks))%nat).
-Proof. exact (fun sel => C20_slots_time_thm sel true). Qed.
+Proof. exact C20_slots_logtime_thm. Qed.
 Print Assumptions C20_slots_logtime.
 
 Theorem C20_slots_reverse : forall (sel : amsg -> bool) cks,
@@ -27,7 +27,7 @@ Theorem C20_slots_reverse : forall (sel : amsg -> bool) cks,
      (length (a_slots s) <= Nat.max 1 (max_overlap cks))%nat) /\
   (forall fuel n out st, a_read sel ReverseLogTimeOrder fuel n cks = Some (out, st) ->
      (fst st <= Nat.max 1 (max_overlap cks))%nat /\ (snd st <= Nat.max 1 (max_overlap cks))%nat).
-Proof. exact (fun sel => C20_slots_time_thm sel false). Qed.
+Proof. exact C20_slots_reverse_thm. Qed.
 Print Assumptions C20_slots_reverse.
 
 Theorem C20_slots_file : forall (sel : amsg -> bool) cks,
@@ -43,16 +43,23 @@ Theorem C20_max_overlap_meaning : forall cks,
 Proof. exact C20_max_overlap_meaning_thm. Qed.
 Print Assumptions C20_max_overlap_meaning.
 
-(* the slot statistics of the byte-level read equal those of the abstract run *)
-Theorem C20_refinement_all : forall dall ro sm f sel pairs,
-  loader_ok dall ro sm f sel pairs ->
-  forall fuel n s a acc aacc st ms st',
-  st_match pairs s a ->
-  indexed_all dall fuel n ro sm f s acc st = Ok (ms, EEOF, st') ->
-  exists out, a_run sel (ro_order ro) fuel n a aacc st = Some (aacc ++ out, st') /\
-              length ms = (length acc + length out)%nat.
-Proof. exact indexed_all_refines_thm. Qed.
-Print Assumptions C20_refinement_all.
+(* the byte-level read under the loader hypothesis: st = (slots allocated, slots with unread
+   messages), maxima over the states between calls, as reported by Reader.indexed_all *)
+Theorem C20_indexed_slots : forall dall ro sm f sel pairs d fuel n cis cks ms st,
+  loader_ok dall ro sm f sel pairs -> ro_order ro = order_of d ->
+  Forall2 (ci_match pairs) cis cks -> chunks_wf cks -> ranges_ok cks -> NoDup (map ac_off cks) ->
+  indexed_all dall fuel n ro sm f (i_init ro cis) [] (O, O) = Ok (ms, EEOF, st) ->
+  (fst st <= Nat.max 1 (max_overlap cks))%nat /\ (snd st <= Nat.max 1 (max_overlap cks))%nat.
+Proof. exact C20_indexed_slots_thm. Qed.
+Print Assumptions C20_indexed_slots.
+
+Theorem C20_indexed_slots_file : forall dall ro sm f sel pairs fuel n cis cks ms st,
+  loader_ok dall ro sm f sel pairs -> ro_order ro = FileOrder ->
+  Forall2 (ci_match pairs) cis cks ->
+  indexed_all dall fuel n ro sm f (i_init ro cis) [] (O, O) = Ok (ms, EEOF, st) ->
+  (fst st <= 1)%nat /\ (snd st <= 1)%nat.
+Proof. exact C20_indexed_slots_file_thm. Qed.
+Print Assumptions C20_indexed_slots_file.
 
 (* ----- non-vacuity ----- *)
 Example C20_ex_hyps : chunks_wf ex_cks /\ ranges_ok ex_cks /\ NoDup (map ac_off ex_cks).
@@ -76,3 +83,8 @@ Example C20_ex_bad_range :
   uids (a_read sel_all LogTimeOrder 3 3 ex_bad_range) = Some ([0; 1]%nat, (2, 1)%nat) /\
   Nat.max 1 (max_overlap ex_bad_range) = 1%nat.
 Proof. exact ex_bad_range_refutes. Qed.
+Example C20_ex_end_to_end_hyps :
+  loader_ok x_dall x_ro x_sm x_file x_sel x_pairs /\ ro_order x_ro = order_of true /\
+  Forall2 (ci_match x_pairs) [x_ci] [x_ac] /\ chunks_wf [x_ac] /\ ranges_ok [x_ac] /\ NoDup (map ac_off [x_ac]) /\
+  exists ms st, indexed_all x_dall 4 4 x_ro x_sm x_file (i_init x_ro [x_ci]) [] (O, O) = Ok (ms, EEOF, st).
+Proof. exact x_end_to_end_hyps. Qed.
